@@ -22,6 +22,7 @@ fn section_json0(s: &ElfSection<'static>) -> Value {
         "addr": out::le(s.start_address(), 8),
         "size": out::le(s.size(), 8),
         "addralign": out::le(s.addralign(), 8),
+        "end": match std::panic::catch_unwind(|| s.end_address()) { Ok(e) => out::val(e, 8), Err(_) => serde_json::json!({"k": "panic"}) },
         "alloc": if s.is_allocated() { 1 } else { 0 },
     })
 }
